@@ -54,7 +54,7 @@ def splitter_job(interp, c, case):
         sp = S.ns["GeneralVolumeSplitter"]()
         opts = {}
         for s, m in zip(names, modes):
-            if m != "binomial":
+            if m != "binomial" or vmode == "explicit":        # "explicit": the (default) binomial species are named under their own key as well
                 opts.setdefault(m, []).append(s)
         sp.py_set_partitioning(opts, M)
         noise = c.real("noise", lo=0, hi=__import__("fractions").Fraction(49, 100))
@@ -792,7 +792,7 @@ def check(tier):
     mx = 2 if tier == "quick" else 3
     sp = [("perfect_binomial", ("binomial",), mx, None), ("perfect_binomial", ("binomial", "binomial"), mx, None),
           ("general", ("binomial", "perfect"), mx, None), ("general", ("duplicate", "binomial"), mx, None),
-          ("general", ("perfect", "duplicate"), mx, None),
+          ("general", ("perfect", "duplicate"), mx, None), ("general", ("binomial", "perfect"), mx, "explicit"), ("general", ("binomial", "binomial"), mx, "explicit"),
           ("lineage", ("binomial", "perfect"), mx, "binomial"), ("lineage", ("duplicate", "binomial"), mx, "perfect"),
           ("lineage", ("perfect", "binomial"), mx, "duplicate"), ("lineage", ("binomial",), mx, "binomial")]
     if tier == "thorough":
